@@ -28,9 +28,9 @@ STATUS_CODES = {"retry": [408, 429, 500, 503], "409": [409], "401": [401], "410"
                 "other": [400, 402, 403, 404, 405, 406, 407, 411, 412, 413, 414, 415, 416, 417, 418, 422, 426, 428, 431, 451,
                           501, 502, 504, 505, 507, 511, 599, 300, 301, 302, 304, 307, 308, 201, 203, 204, 206, 100, 199, 600, 999]}
 
-V_NAMES = {101: "V_DUP_ACK", 102: "V_FOREIGN", 103: "V_LOST", 201: "V_DEAD_RESENT", 202: "V_ATTEMPTS",
+V_NAMES = {101: "V_DUP_ACK", 102: "V_FOREIGN", 103: "V_LOST", 201: "V_DEAD_RESENT", 202: "V_ATTEMPTS", 203: "V_NOT_RETRIED",
            301: "V_VALID", 302: "V_TERMINAL_REPLY", 303: "V_TERMINAL_CONNECT", 304: "V_CONNECTED_UNSOUND",
-           305: "V_NO_RETRY", 306: "V_NO_RESTART", 401: "V_PARAMS", 501: "V_HUNG", 502: "V_FINAL_DUP",
+           305: "V_NO_RETRY", 306: "V_NO_RESTART", 401: "V_PARAMS", 501: "V_HUNG", 502: "V_FINAL_DUP", 503: "V_NOT_FLUSHED",
            601: "V_CAPACITY"}
 
 
@@ -247,19 +247,22 @@ class HistGen:
         run = self.connect(1, caps=caps)
         focus = rng.choice(["metrics", "metrics", "txnev", "custom", "errev", "span", "log", "errors", "pkgs"])
         ty = ALL if rng.random() < 0.5 else (DEFAULT if focus in ("metrics", "errors", "pkgs") else BITS[focus])
-        n = rng.randint(3, 14)
+        # half of the histories go past the attempt bound; "quiet" ones deliver nothing between the attempts (the
+        # carried-over payload then meets an EMPTY next harvest every time -- seeded/C02d3), the others keep feeding
+        n = rng.randint(11, 14) if rng.random() < 0.5 else rng.randint(3, 14)
+        quiet = rng.random() < 0.45
         usage_fail = rng.random() < 0.5
         self.txn(run, rich=1.0)
         self.txn(run, rich=1.0)
         for k in range(n):
             self.tick(ah=0, ty=ty)
             # answer everything outstanding: the focus category fails with a retryable status
-            status = rng.choice(["retry", "other", "transport"]) if rng.random() < 0.1 else "retry"
+            status = rng.choice(["retry", "other", "transport"]) if rng.random() < (0.0 if quiet else 0.1) else "retry"
             for c in CATS + ["txnev", "usage"]:
                 bad = (c == focus) or (c == "usage" and usage_fail)
                 self.ops.append({"op": "replycat", "cat": c,
                                  "out": {"kind": "fail", "f": status} if bad else {"kind": "ok"}})
-            if rng.random() < 0.6:
+            if not quiet and rng.random() < 0.6:
                 self.txn(run, rich=rng.random())
         for _ in range(2):
             self.tick(ah=0, ty=ty)
@@ -291,6 +294,68 @@ class HistGen:
             else:
                 self.drain(rng.randint(1, 4), {"ok": 3, "retry": 1, "409": 2, "401": 2, "410": 2, "transport": 1})
         if rng.random() < 0.3:
+            self.exit("ok")
+
+    def p_silence(self):
+        """C03: an application gets a verdict (terminal 410 / 401 at either stage or at harvest, or a plain failure),
+        then its agents stay silent for longer than the inactivity timeout, then they ask again: a terminal
+        verdict is permanent however long the silence (seeded/C03d1)"""
+        rng = self.rng
+        how = rng.choice(["pre410", "pre401", "conn410", "conn401", "harvest410", "harvest401", "pre503", "connmalformed", "connected"])
+        self.ops.append({"op": "appinfo", "key": 1, "dt": False, "id": None})
+        if how.startswith("pre"):
+            self.answer_connect({"pre410": "410", "pre401": "401", "pre503": "retry"}[how], "ok")
+        elif how.startswith("conn") and how != "connected":
+            self.answer_connect("ok", {"conn410": "410", "conn401": "401", "connmalformed": "malformed"}[how])
+        else:
+            run = self.answer_connect("ok", "ok")
+            if how.startswith("harvest"):
+                self.txn(run, rich=0.3)
+                self.tick(ah=0, ty=ALL)
+                self.ops.append({"op": "reply", "n": 0, "out": {"kind": "fail", "f": how[-3:]}})
+                self.drain(8, {"ok": 1})
+        self.ops.append({"op": "appinfo", "key": 1, "dt": False, "id": None})
+        for _ in range(rng.randint(1, 3)):
+            self.advance(rng.choice([601, 700, 1200, 3600, 100000]))
+            if rng.random() < 0.3:
+                self.tick(ah=0, ty=rng.choice([ALL, DEFAULT]))
+        for _ in range(rng.randint(1, 3)):
+            self.ops.append({"op": "appinfo", "key": 1, "dt": False, "id": rng.choice([None] + self.all_runs)})
+            if rng.random() < 0.4:
+                self.advance(rng.choice([31, 700]))
+        if rng.random() < 0.5:
+            self.answer_connect()
+            self.ops.append({"op": "appinfo", "key": 1, "dt": False, "id": None})
+        self.drain(4, {"ok": 1})
+
+    def p_staletick(self):
+        """C04/C03: a run is restarted (409 / 401 at harvest) while its harvest still holds data of other categories; the
+        application reconnects under a new run id; then a harvest event of the OLD app harvest arrives (its timers are
+        only cancelled asynchronously): whatever is sent for it must not travel under the new run id (seeded/C04d1)"""
+        rng = self.rng
+        caps = {c: 100 for c in EVENT_CATS}
+        run1 = self.connect(1, dt=rng.random() < 0.3, caps=caps)
+        for _ in range(rng.randint(1, 3)):
+            self.txn(run1, rich=1.0)
+        first = rng.choice(["txnev", "custom", "span", "errev", "log"])
+        self.tick(ah=0, ty=BITS[first] if rng.random() < 0.8 else DEFAULT)
+        self.ops.append({"op": "reply", "n": 0, "out": {"kind": "fail", "f": rng.choice(["409", "409", "401"])}})
+        self.drain(6, {"ok": 1})
+        self.advance(rng.choice([0, 31, 45]))
+        self.ops.append({"op": "appinfo", "key": 1, "dt": False, "id": None})
+        run2 = self.answer_connect("ok", "ok", caps=caps)
+        self.ops.append({"op": "appinfo", "key": 1, "dt": False, "id": rng.choice([run1, run2])})
+        if run2 is not None and rng.random() < 0.7:
+            self.txn(run2, rich=1.0)
+        if rng.random() < 0.5:
+            self.txn(run1, rich=1.0)                # data under the stale id: must be ignored
+        for _ in range(rng.randint(1, 3)):
+            self.tick(ah=0, ty=rng.choice([ALL, ALL, DEFAULT] + [BITS[c] for c in EVENT_CATS]))   # the OLD app harvest
+            if rng.random() < 0.5:
+                self.tick(ah=1, ty=rng.choice([ALL, DEFAULT]))
+            self.drain(rng.randint(2, 12), {"ok": 6, "retry": 1, "409": 1})
+        self.drain(12, {"ok": 1})
+        if rng.random() < 0.5:
             self.exit("ok")
 
     def p_overlap(self):
@@ -453,9 +518,17 @@ class HistGen:
 
     def p_applimit(self):
         """C05: the 251st application is refused"""
-        for k in range(1, 253):
+        rng = self.rng
+        rejected = rng.choice([0, 0, 3, 12])
+        # some applications get a terminal verdict first (401 / 410 at preconnect): they still count (seeded/C05d1)
+        for k in range(1, rejected + 1):
+            self.ops.append({"op": "appinfo", "key": k, "dt": False, "id": None})
+            self.answer_connect(rng.choice(["401", "410"]), "ok")
+        for k in range(rejected + 1, 253):
             self.ops.append({"op": "appinfo", "key": k, "dt": False, "id": None})
         self.ops.append({"op": "appinfo", "key": 7, "dt": False, "id": None})
+        self.ops.append({"op": "appinfo", "key": 1, "dt": False, "id": None})
+        self.ops.append({"op": "appinfo", "key": 260, "dt": False, "id": None})
 
 
 def gen_histories(rng, n, profiles):
